@@ -12,7 +12,9 @@ from .core import Sim
 
 # names include JSON-structure words and metadata key names (a name is just a string to the store)
 NAMES = ["run", "a", "b", "run-2026-10-01T07:12:17.948", "", "naïve-ü", "x y", "data", "0", "名前",
-         "metadata", "actions", "nested", "run_type", "func", "seed", "null", "{}", "a\"b", "data.json", "c"]
+         "metadata", "actions", "nested", "run_type", "func", "seed", "null", "{}", "a\"b", "data.json", "c",
+         # names that differ only after their last dot (the default name is an ISO timestamp with a fraction)
+         "exp.v1", "exp.v2", "a.b", "a.c", "run-2026-10-01T07:12:17.100", "run-2026-10-01T07:12:17.200"]
 
 
 def _eval_func(*a: Any) -> None:  # repr contains "eval" -> run_type "eval"
